@@ -515,17 +515,22 @@ def run_check(prop, tier, seed, replay=None):
             msg = o['__driver_error__']
             failures.append(Failure(c, o, msg if msg.startswith('the implementation did not finish') else 'harness driver error: ' + msg))
             continue
-        cl = prop.oracle(c, o)
-        if cl:
-            failures.append(Failure(c, o, cl))
-        for lab in prop.histogram(c, o):
-            hist[lab] = hist.get(lab, 0) + 1
-        k = prop.key(c, o)
-        if k not in seen:
-            seen.add(k)
-            if prop.nontrivial(c, o):
-                nontrivial += 1
-        t = prop.coq_case(c, o)
+        try:
+            cl = prop.oracle(c, o)
+            if cl:
+                failures.append(Failure(c, o, cl))
+            for lab in prop.histogram(c, o):
+                hist[lab] = hist.get(lab, 0) + 1
+            k = prop.key(c, o)
+            if k not in seen:
+                seen.add(k)
+                if prop.nontrivial(c, o):
+                    nontrivial += 1
+            t = prop.coq_case(c, o)
+        except Exception as e:     # an observation the harness cannot interpret: fail closed on this case
+            failures.append(Failure(c, o, f'the observation could not be interpreted ({type(e).__name__}: {e}); '
+                                          'the implementation behaved in a way the harness does not expect'))
+            continue
         if t is not None:
             terms.append(t)
             term_idx.append(i)
